@@ -16,6 +16,13 @@ from re._constants import (LITERAL, NOT_LITERAL, IN, ANY, MAX_REPEAT, MIN_REPEAT
                            BRANCH, AT, AT_BEGINNING, AT_END, MAXREPEAT)
 from common import *
 import regex_tr
+import failclosed
+
+# what is read besides the evaluated module values (tools/gen/failclosed.py): mask_password must be the one plain definition,
+# `re` the real module (re.sub in mask_password, re.compile at the compile site)
+_FC = {'src': 'oslo_utils/strutils.py', 'mod': 'oslo_utils.strutils', 'imports': {'re': 're'}}
+FAILCLOSED = {'generate': [dict(_FC, functions={'mask_password': {'defaults': {'secret': failclosed.ANY}}})],
+              'generate_concrete': [_FC]}
 
 SENT = '\ue000'          # stands for %(key)s while parsing a template
 CHAR_OPS = (LITERAL, NOT_LITERAL, IN, ANY)
@@ -224,6 +231,7 @@ def mask_password_shape():
 
 
 def generate():
+    failclosed.check_all(FAILCLOSED['generate'])
     m = _strutils()
     keys = list(m._SANITIZE_KEYS)
     flags = _flags_of(m)
@@ -266,6 +274,7 @@ def generate():
 
 
 def generate_concrete():
+    failclosed.check_all(FAILCLOSED['generate_concrete'])
     m = _strutils()
     keys = list(m._SANITIZE_KEYS)
     rows = []
